@@ -142,6 +142,33 @@ def run_source(kind: str, data: bytes, sched, integ: str, entry: str, tmpdir: st
         raw = sources.DribbleRaw(data, sched)
         r = parse_from(integ, entry, io.BufferedReader(raw))
         log = raw.log
+    elif kind in ("socket-timeout-raw-fd", "pipe-raw-fd"):
+        # the REAL raw objects (they have a fileno()), no recording wrapper: a socket with a timeout (its descriptor is in
+        # non-blocking mode underneath) read through makefile('rb', buffering=0), and the FileIO of a pipe; the peer
+        # dribbles with pauses, so the bytes asked for are often not there yet
+        import socket as _socket
+        if kind == "pipe-raw-fd":
+            r_fd, w_fd = os.pipe()
+            t = sources.feeder(lambda b: os.write(w_fd, b), lambda: os.close(w_fd), data, sched, delay=0.001 if len(data) < 5000 else 0.0)
+            f = io.FileIO(r_fd, "rb", closefd=True)
+            keep = None
+        else:
+            a, b = _socket.socketpair()
+            b.settimeout(10.0)
+            t = sources.feeder(a.sendall, lambda: (a.shutdown(_socket.SHUT_WR), a.close()), data, sched,
+                               delay=0.001 if len(data) < 5000 else 0.0)
+            f = b.makefile("rb", buffering=0)
+            keep = b
+        try:
+            r = parse_from(integ, entry, f)
+        finally:
+            try:
+                f.close()
+                if keep is not None:
+                    keep.close()
+            except Exception:  # noqa: BLE001
+                pass
+            t.join(timeout=5)
     elif kind in ("pipe-raw", "pipe-buffered", "socket-raw", "socket-buffered"):
         mk = sources.pipe_source if kind.startswith("pipe") else sources.socket_source
         f, rec, t = mk(data, sched, kind.endswith("buffered"), delay=0.0002 if len(data) < 5000 else 0.0)
@@ -161,7 +188,7 @@ def run_source(kind: str, data: bytes, sched, integ: str, entry: str, tmpdir: st
 
 KINDS = ["seekable-dribble-buffered", "gzip-over-seekable-dribble", "buffered-tail1-of-16", "buffered-tail2-of-16",
          "buffered-tail1-of-8192", "buffered-tail2-of-8192", "file", "file-raw-buffered", "bytesio-offset", "file-offset", "gzip", "gzip-file", "bz2-file", "lzma-file", "dribble-raw", "dribble-buffered", "pipe-raw", "pipe-buffered",
-         "socket-raw", "socket-buffered"]
+         "socket-raw", "socket-buffered", "socket-timeout-raw-fd", "pipe-raw-fd"]
 
 
 def nontrivial(log, data: bytes, frames) -> bool:
